@@ -33,7 +33,7 @@ def run_native(exe, vector, timeout=60, files=None):
         obs = [int(l[4:]) for l in out.splitlines() if l.startswith('OBS ')]
         fails = [l[12:] for l in out.splitlines() if l.startswith('ASSERT-FAIL ')]
         reach = sorted(set(l[6:] for l in out.splitlines() if l.startswith('REACH ')))
-        return dict(rc=rc, obs=obs, fails=fails, reach=reach, done='DONE ' in out, err=err[-2000:], out=out[-2000:])
+        return dict(rc=rc, obs=obs, fails=fails, reach=reach, done='DONE ' in out, err=err[-2000:], out=out[-2000:], full=out)
     finally:
         shutil.rmtree(d, ignore_errors=True)
 
@@ -46,7 +46,7 @@ def run_job(prop, job, tier, builder, seed, log):
     units = job.get('units', irbuild.PIPELINE)
     known = [k for k in load_known(prop) if re.fullmatch(k.get('job', name), name)]
     tb = time.time()
-    ll = builder.link(prop + '_' + name, job['harness'], units, defines, stubs=job.get('stubs', True), iquote=job.get('iquote', False))
+    ll = builder.link(prop + '_' + name, job['harness'], units, defines, stubs=job.get('stubs', True), iquote=job.get('iquote', False), support=job.get('support', ()))
     build_s = time.time() - tb
     lim = dict(job.get('limits', {})); lim.update(job.get(tier, {}).get('limits', {}))
     opts = dict(max_steps=lim.get('max_steps', 20000000), max_depth=lim.get('max_depth', 400), known=known, hooks=tuple(job.get('hooks', ())))
@@ -67,7 +67,7 @@ def run_job(prop, job, tier, builder, seed, log):
     exe = exe_san = None
     if need_native:
         try:
-            exe = builder.native(prop + '_' + name, job['harness'], units, defines, stubs=job.get('stubs', True), iquote=job.get('iquote', False))
+            exe = builder.native(prop + '_' + name, job['harness'], units, defines, stubs=job.get('stubs', True), iquote=job.get('iquote', False), support=job.get('support', ()))
         except irbuild.BuildError as e:
             res['status'] = 'internal'; res['messages'].append('native build failed: ' + str(e)[-1500:]); return res
     # engine self-check: same vectors through the natively compiled harness
@@ -89,7 +89,7 @@ def run_job(prop, job, tier, builder, seed, log):
         if not reproduced and is_mem:
             try:
                 if exe_san is None:
-                    exe_san = builder.native(prop + '_' + name, job['harness'], units, defines, stubs=job.get('stubs', True), iquote=job.get('iquote', False), sanitize=True)
+                    exe_san = builder.native(prop + '_' + name, job['harness'], units, defines, stubs=job.get('stubs', True), iquote=job.get('iquote', False), sanitize=True, support=job.get('support', ()))
                 n = run_native(exe_san, v['vector'], timeout=120)
                 reproduced = (n['rc'] not in (0, 2, 77, 78)) or not n['done']
             except irbuild.BuildError as e:
@@ -122,17 +122,17 @@ def write_replay(prop, tier, job, entry):
     dig = hashlib.sha1(json.dumps([job['name'], entry['assertion'], entry['vector']]).encode()).hexdigest()[:10]
     path = os.path.join(VERIF, 'replays', '%s-%s-%s.json' % (prop, job['name'], dig))
     json.dump(dict(property=prop, tier=tier, job=job['name'], harness=job['harness'], defines=job_defines(job, tier), units=job.get('units', irbuild.PIPELINE),
-                   stubs=job.get('stubs', True), iquote=job.get('iquote', False), assertion=entry['assertion'], vector=entry['vector'], notes=entry.get('notes', [])), open(path, 'w'), indent=1)
+                   stubs=job.get('stubs', True), iquote=job.get('iquote', False), support=list(job.get('support', ())), assertion=entry['assertion'], vector=entry['vector'], notes=entry.get('notes', [])), open(path, 'w'), indent=1)
     return path
 
-def do_replay(path):
-    r = json.load(open(path))
+def do_replay(path, extra_defines=()):
+    r = json.load(open(path)); r['defines'] = list(r['defines']) + list(extra_defines)
     scratch = tempfile.mkdtemp(prefix='vreplay_')
     try:
         b = irbuild.Builder(scratch)
-        exe = b.native('replay', r['harness'], r['units'], r['defines'], stubs=r['stubs'], iquote=r['iquote'])
+        exe = b.native('replay', r['harness'], r['units'], r['defines'], stubs=r['stubs'], iquote=r['iquote'], support=r.get('support', ()))
         n = run_native(exe, [tuple(x) for x in r['vector']])
-        print(n['out']); print(n['err'], file=sys.stderr)
+        print(n['out'] if not extra_defines else n['full']); print(n['err'], file=sys.stderr)
         if r['assertion'] in n['fails']: print('REPRODUCED: ' + r['assertion']); return 1
         if n['rc'] not in (0, 2) or not n['done']: print('REPRODUCED (abnormal termination rc=%s)' % n['rc']); return 1
         print('not reproduced'); return 0
@@ -142,9 +142,9 @@ def do_replay(path):
 def main():
     ap = argparse.ArgumentParser()
     ap.add_argument('prop', nargs='?'); ap.add_argument('--tier', default=os.environ.get('VERIF_TIER', 'quick'))
-    ap.add_argument('--job'); ap.add_argument('--replay'); ap.add_argument('--keep', action='store_true'); ap.add_argument('--no-evidence', action='store_true')
+    ap.add_argument('--job'); ap.add_argument('--replay'); ap.add_argument('--keep', action='store_true'); ap.add_argument('--define', action='append', default=[]); ap.add_argument('--no-evidence', action='store_true')
     a = ap.parse_args()
-    if a.replay: sys.exit(do_replay(a.replay))
+    if a.replay: sys.exit(do_replay(a.replay, a.define))
     prop = a.prop; tier = a.tier if a.tier in ('quick', 'thorough') else 'quick'
     seed = int(os.environ.get('VERIF_SEED', '0') or 0)
     spec = catalog.CHECKS[prop]
